@@ -8,6 +8,7 @@ Output: harness/src/universe.rs  -- derived type definitions with Model/Proj imp
 The set of types that is compiled and run is therefore decided by the specification.
 """
 import json
+import os
 import sys
 
 PRIM_PATH = {n: f"core::num::{n}" for n in [
@@ -33,6 +34,16 @@ def rust_type(d, params=None, lt="'static"):
         return PRIM_PATH.get(d["name"], d["name"])
     if k == "unit":
         return "()"
+    if k == "hw":
+        return (params or {}).get("prefix", "") + "HW"
+    if k == "staticstr":
+        return "&'static str"
+    if k == "staticslice":
+        return "&'static [u8]"
+    if k == "rawptr":
+        return "*const u8"
+    if k == "seriter":
+        return f"SerIter<'static, {r(d['elem'])}, std::slice::Iter<'static, {r(d['elem'])}>>"
     if k == "rangefull":
         return "core::ops::RangeFull"
     if k == "string":
@@ -72,6 +83,8 @@ def rust_type(d, params=None, lt="'static"):
         pre = (d.get("mod") + "::") if d.get("mod") else ""
         if not pre and params and params.get("inmod"):
             pre = "super::"     # inside a mutant's module a core definition is shadowed by its namesake mutant
+        if not pre and params and params.get("prefix"):
+            pre = params["prefix"]
         return pre + d["name"] + ("<" + ", ".join(args) + ">" if args else "")
     # epsilon-copy shapes
     if k == "bslice":
@@ -142,9 +155,17 @@ def gen_def(d, out):
     cparams = d["cparams"]
     P = {"types": tparams, "consts": [c["name"] for c in cparams], "inmod": bool(d.get("mod"))}
     zc = d["zc"]
-    tb = d.get("tbounds") or [""] * len(tparams)
-    generics_decl = ", ".join([t + (": " + b if b else "") for t, b in zip(tparams, tb)] +
+    tb = list(d.get("tbounds") or [""] * len(tparams))
+    tdef = d.get("tdefaults") or [""] * len(tparams)
+    wherec = d.get("wherec") or ""
+    generics_decl = ", ".join([t + (": " + b if b else "") + (" = " + df if df else "") for t, b, df in zip(tparams, tb, tdef)] +
                               [f"const {c['name']}: {c['ck']}" for c in cparams])
+    where_decl = (" where " + wherec) if wherec else ""
+    if wherec:
+        # the impls written here must repeat the predicate: fold it into the parameter's bounds
+        wn, wb = [x.strip() for x in wherec.split(":")]
+        i = tparams.index(wn)
+        tb[i] = (tb[i] + " + " + wb) if tb[i] else wb
     generics_use = ", ".join(tparams + [c["name"] for c in cparams])
     gd = f"<{generics_decl}>" if generics_decl else ""
     gu = f"<{generics_use}>" if generics_use else ""
@@ -167,11 +188,11 @@ def gen_def(d, out):
 
     if d["dk"] == "struct":
         if not d["fields"]:
-            out.append(f"pub struct {name}{gd} {{}}")
+            out.append(f"pub struct {name}{gd}{where_decl} {{}}")
         elif is_tuple_struct:
-            out.append(f"pub struct {name}{gd}{fields_decl(d['fields'], False, True)};")
+            out.append(f"pub struct {name}{gd}{fields_decl(d['fields'], False, True)}{where_decl};")
         else:
-            out.append(f"pub struct {name}{gd} {fields_decl(d['fields'], True, True)}")
+            out.append(f"pub struct {name}{gd}{where_decl} {fields_decl(d['fields'], True, True)}")
     else:
         vs = []
         for v in d["variants"]:
@@ -181,7 +202,7 @@ def gen_def(d, out):
                 vs.append(v["name"] + fields_decl(v["fields"], False, False))
             else:
                 vs.append(v["name"] + " " + fields_decl(v["fields"], True, False))
-        out.append(f"pub enum {name}{gd} {{ " + ", ".join(vs) + " }")
+        out.append(f"pub enum {name}{gd}{where_decl} {{ " + ", ".join(vs) + " }")
 
     # ---- Model ----
     def bounds(tr):
@@ -330,7 +351,10 @@ def table_line(r):
 
 def main():
     src, hdir, json_out = sys.argv[1], sys.argv[2], sys.argv[3]
-    limit = int(sys.argv[4]) if len(sys.argv) > 4 else 0
+    profile = sys.argv[4] if len(sys.argv) > 4 else "core"
+    limit = 0
+    if profile == "grammar":
+        return main_grammar(src, hdir, json_out)
     recs = parse_tlc_json_lines(src)
     defs = [r for r in recs if r.get("rec") == "defs"][0]["defs"]
     types = [r for r in recs if r.get("rec") == "type"]
@@ -368,6 +392,69 @@ def main():
         write_if_changed(f"{hdir}/shards/u{i}/src/lib.rs", "\n".join(body) + "\n")
     json.dump({"defs": defs, "types": meta}, open(json_out, "w"))
     print(f"generated {len(types)} types, {len(defs)} definitions, {NSHARDS} shards")
+
+
+def main_grammar(src, hdir, json_out):
+    """The generated universe of C05: harness/g5/{defs,s0..s3,cli}."""
+    recs = parse_tlc_json_lines(src)
+    defs = [r for r in recs if r.get("rec") == "defs"][0]["defs"]
+    types = [r for r in recs if r.get("rec") == "type"]
+    types.sort(key=lambda r: (len(r["key"]), r["key"]))
+    hdr = ["// @generated by gen/gen_universe.py (grammar profile) from spec/Derive.tla -- do not edit",
+           "#![allow(clippy::all, non_snake_case, unused_variables, dead_code, unused_imports, non_camel_case_types)]"]
+    out = hdr + ["use harness::model::*;", "use harness::universe::*;", "use serde_json::{json, Value};", ""]
+    for d in defs:
+        gen_def(d, out)
+    g5 = f"{hdir}/g5"
+    n = 6
+    os.makedirs(f"{g5}/defs/src", exist_ok=True)
+    write_if_changed(f"{g5}/defs/src/lib.rs", "\n".join(out) + "\n")
+    write_if_changed(f"{g5}/defs/Cargo.toml", CARGO_G5 % {"name": "g5defs", "extra": ""})
+    shards = [[] for _ in range(n)]
+    meta = {}
+    for i, r in enumerate(types):
+        meta[r["key"]] = r
+        shards[i % n].append(table_line(r))
+    for i, lines in enumerate(shards):
+        os.makedirs(f"{g5}/s{i}/src", exist_ok=True)
+        body = hdr + ["use harness::model::*;", "use harness::runner::*;", "use harness::universe::*;", "use g5defs::*;", "",
+                      "pub fn table() -> Vec<(&'static str, Box<dyn Runner>)> {",
+                      "    let mut t: Vec<(&'static str, Box<dyn Runner>)> = Vec::new();"] + lines + ["    t", "}"]
+        write_if_changed(f"{g5}/s{i}/src/lib.rs", "\n".join(body) + "\n")
+        write_if_changed(f"{g5}/s{i}/Cargo.toml", CARGO_G5 % {"name": f"g5s{i}", "extra": 'g5defs = { path = "../defs" }\n'})
+    os.makedirs(f"{g5}/cli/src", exist_ok=True)
+    deps = 'g5defs = { path = "../defs" }\n' + "".join(f'g5s{i} = {{ path = "../s{i}" }}\n' for i in range(n))
+    write_if_changed(f"{g5}/cli/Cargo.toml", CARGO_G5 % {"name": "g5cli", "extra": deps})
+    ext = " ".join(f"t.extend(g5s{i}::table());" for i in range(n))
+    write_if_changed(f"{g5}/cli/src/main.rs", """// @generated
+use std::collections::HashMap;
+use std::io::BufWriter;
+#[global_allocator]
+static GLOBAL: harness::alloc::Tracking = harness::alloc::Tracking;
+fn main() {
+    std::panic::set_hook(Box::new(|_| {}));
+    let args: Vec<String> = std::env::args().collect();
+    let mut t: HashMap<&'static str, Box<dyn harness::runner::Runner>> = HashMap::new();
+    %s
+    let out = std::io::stdout();
+    let mut out = BufWriter::new(out.lock());
+    if !harness::cli::run_table_cmd(&t, &args, &mut out) { std::process::exit(2); }
+}
+""" % ext)
+    json.dump({"defs": defs, "types": meta}, open(json_out, "w"))
+    print(f"generated {len(types)} grammar types, {len(defs)} definitions, {n} shards")
+
+
+CARGO_G5 = """[package]
+name = "%(name)s"
+version = "0.1.0"
+edition = "2021"
+
+[dependencies]
+harness = { path = "../..", default-features = false }
+epserde = { path = "/repo/epserde", default-features = false, features = ["std", "derive"] }
+serde_json = "1"
+%(extra)s"""
 
 
 def write_if_changed(path, text):
